@@ -273,6 +273,20 @@ func parseTag(tag string) (string, bool, error) {
 // fields included embedded fields. The caller must check that structType is a
 // struct.
 func getStructFields(structType reflect.Type) ([]*structField, error) {
+	return getEmbeddedStructFields(structType, nil)
+}
+
+// getEmbeddedStructFields does the work of getStructFields. The embedding
+// argument lists the struct types we are currently looking inside, it is used
+// to detect structs that are embedded in themselves via a pointer.
+func getEmbeddedStructFields(structType reflect.Type, embedding []reflect.Type) ([]*structField, error) {
+	for _, t := range embedding {
+		if t == structType {
+			return nil, fmt.Errorf("struct %s is embedded in itself", structType.Name())
+		}
+	}
+	embedding = append(embedding, structType)
+
 	var fields []*structField
 	for i := 0; i < structType.NumField(); i++ {
 		field := structType.Field(i)
@@ -298,7 +312,7 @@ func getStructFields(structType reflect.Type) ([]*structField, error) {
 			// Promote the embedded struct fields into the current parent struct
 			// scope, making sure to update the Index list for navigation back
 			// to the original nested location.
-			nestedFields, err := getStructFields(fieldType)
+			nestedFields, err := getEmbeddedStructFields(fieldType, embedding)
 			if err != nil {
 				return nil, err
 			}
